@@ -157,6 +157,9 @@ structure Obj where
   /-- `getattr(type(obj), "_rpyc_<op>attr", None)`; a hook set to `None` counts as absent, an
   instance-level attribute of that name is not looked at -/
   hook : Op → Option Hook
+  /-- what `hasattr(obj, n)` does BESIDES answering: `hasattr` evaluates the attribute (a property getter, a
+  `__getattr__`), so a probe is a read.  `[]` for objects whose attribute lookup is pure. -/
+  probeExtra : PyStr → List Ev := fun _ => []
 
 /-- an object whose type defines no hooks -/
 def plainObj (id : Nat) (has : PyStr → Bool) : Obj := { id := id, has := has, hook := fun _ => none }
@@ -179,14 +182,20 @@ def serviceObj (id : Nat) (has : PyStr → Bool) : Obj :=
 /-- `helpers.restricted(target, attrs, wattrs)`: class `Restricted` defines `_rpyc_getattr` (name in `attrs` →
 `getattr(target, name)`, else AttributeError) and `_rpyc_setattr` (same with `wattrs`); it defines NO
 `_rpyc_delattr`, so deletion falls to the configuration and acts on the view object itself.
-`wattrs = none` is Python's `wattrs=None` (defaults to `attrs`). `viewHas` = `hasattr(view, n)`. -/
-def restrictedView (id target : Nat) (attrs : List PyStr) (wattrs : Option (List PyStr)) (viewHas : PyStr → Bool) : Obj :=
-  { id := id, has := viewHas,
+`wattrs = none` is Python's `wattrs=None` (defaults to `attrs`).
+`__getattr__ = _rpyc_getattr`: `hasattr(view, n)` for a name the view does not have itself (`viewOwn`: the class's and
+instance's own attributes) and that is listed in `attrs` READS `getattr(target, n)` — so a probe of the view can reach
+the target, for listed names only. -/
+def restrictedView (id target : Nat) (attrs : List PyStr) (wattrs : Option (List PyStr))
+    (viewOwn targetHas : PyStr → Bool) : Obj :=
+  { id := id,
+    has := fun n => viewOwn n || (attrs.contains n && targetHas n),
     hook := fun
       | .get => if Gen.Policy.restrictedHasGetHook then some (listHook target .get attrs .attributeError) else none
       | .set => if Gen.Policy.restrictedHasSetHook then
           some (listHook target .set (match wattrs with | some w => w | none => attrs) .attributeError) else none
-      | .del => none }
+      | .del => none,
+    probeExtra := fun n => if !viewOwn n && attrs.contains n then [.access target .get n] else [] }
 
 /-! ### `_access_attr` -/
 
@@ -207,7 +216,10 @@ structure Res where
   log : List Ev
   deriving Repr, Inhabited
 
-def probeEvs (id : Nat) (ns : List PyStr) : List Ev := ns.map (Ev.probe id)
+/-- the events of probing `ns` on `o`: each probe, followed by whatever evaluating that attribute does -/
+def probeEvs (o : Obj) : List PyStr → List Ev
+  | [] => []
+  | n :: ns => .probe o.id n :: (o.probeExtra n ++ probeEvs o ns)
 
 /-- after name typing, with a hook present: the hook decides -/
 def runHook (o : Obj) (h : Hook) (name : PyStr) (op : Op) : Res :=
@@ -218,8 +230,8 @@ def runHook (o : Obj) (h : Hook) (name : PyStr) (op : Op) : Res :=
 /-- after name typing, without a hook: `_check_attr` then the default accessor -/
 def runDefault (c : Config) (o : Obj) (name : PyStr) (op : Op) : Res :=
   match checkAttr c o.has name op with
-  | .error e => { out := .error e, log := probeEvs o.id (checkProbes c o.has name op) }
-  | .ok n => { out := .ok (.direct n), log := probeEvs o.id (checkProbes c o.has name op) ++ [.access o.id op n] }
+  | .error e => { out := .error e, log := probeEvs o (checkProbes c o.has name op) }
+  | .ok n => { out := .ok (.direct n), log := probeEvs o (checkProbes c o.has name op) ++ [.access o.id op n] }
 
 /-- after name typing -/
 def runNamed (c : Config) (o : Obj) (name : PyStr) (op : Op) : Res :=
@@ -270,6 +282,24 @@ def handleCtxExit (c : Config) (o : Obj) : Res := thenCall o (run c o (.text exi
 /-- `_handle_cmp(obj, other, op)`: `_access_attr(type(obj), op, (), "_rpyc_getattr", "allow_getattr", getattr)(obj, other)`;
 `ty` is `type(obj)` seen as an object (its hooks are those of the metaclass) -/
 def handleCmp (c : Config) (ty : Obj) (opName : Name) : Res := thenCall ty (run c ty opName .get)
+
+/-- did the first stage of `_handle_oldslicing` end in an exception (any `Exception` is swallowed): the policy or a
+hook refused, the name was not text, the attribute read raised (object lacks it), or calling the value raised
+(`callRaises`: the object's business, a parameter) -/
+def stageFails (o : Obj) (r : Res) (callRaises : Bool) : Bool :=
+  match r.out with
+  | .error _ => true
+  | .ok (.direct n) => !o.has n || callRaises
+  | .ok (.hooked _) => callRaises
+
+/-- `_handle_oldslicing(obj, attempt, fallback, start, stop, args)`:
+`try: self._handle_getattr(obj, attempt)(slice(start, stop), *args)` and on ANY exception
+`self._handle_getattr(obj, fallback)(start, stop, *args)` — both names are the peer's, both go through the policy. -/
+def handleOldSlicing (c : Config) (o : Obj) (attempt fallback : Name) (callRaises : Bool) : Res :=
+  if stageFails o (thenCall o (run c o attempt .get)) callRaises then
+    { out := (thenCall o (run c o fallback .get)).out,
+      log := (thenCall o (run c o attempt .get)).log ++ (thenCall o (run c o fallback .get)).log }
+  else thenCall o (run c o attempt .get)
 
 /-! ### connections and histories -/
 
@@ -332,99 +362,252 @@ def slaveOverlay : Overlay :=
 /-- classic mode applied to a connection's own configuration (`SlaveService.on_connect(conn)` in the pinned code) -/
 def onConnectSlave (c : Config) : Config := applyOverlay c slaveOverlay
 
-/-- life of one connection slot -/
-inductive ConnSt where
-  | fresh                      -- no connection with this identity yet
-  | live (cfg : Config)        -- `conn._config`
-  | closed (cfg : Config)      -- closed (`_config` is kept by `_cleanup`, but no request is served any more)
+/-! ### the configuration heap
+
+The property's isolation clause is about OBJECT IDENTITY: `DEFAULT_CONFIG` is one module-level dict object, the caller
+passes a dict object it may keep, edit and reuse, every connection has a `_config` object, and the value stored under
+`"safe_attrs"` is a reference to a set object.  Whether two of these are the same object (or read through to one
+another) is exactly what the regressions the property names are about, so the world is a small heap and the steps do
+the copy / alias / update operations the code performs.  WHICH operations the code performs is measured on the live
+code by the generator (`Gen.Policy.initModeCode`, `classicWritesCallerDict`, `classicAddsToSafeCp`) — the model has all
+the variants, the theorems are about the measured one, and the bad variants are shown to break isolation. -/
+
+/-- identities of dict objects -/
+inductive Ref where
+  | dflt                -- `protocol.DEFAULT_CONFIG`
+  | app (n : Nat)       -- a settings dict object of the application (passed as `config=`; literal dicts are fresh ones)
+  | own (i : Nat)       -- the dict object `Connection.__init__` creates for connection `i`
   deriving DecidableEq, Repr, Inhabited
 
-/-- `d.update(e)` on a caller's settings dict: keys of `e` replace, the others stay -/
-def mergeOverlay (d e : Overlay) : Overlay :=
-  { allowSafe := upd (e.allowSafe.map some) d.allowSafe
-    allowExposed := upd (e.allowExposed.map some) d.allowExposed
-    allowPublic := upd (e.allowPublic.map some) d.allowPublic
-    allowAll := upd (e.allowAll.map some) d.allowAll
-    allowGet := upd (e.allowGet.map some) d.allowGet
-    allowSet := upd (e.allowSet.map some) d.allowSet
-    allowDel := upd (e.allowDel.map some) d.allowDel
-    exposedPrefix := upd (e.exposedPrefix.map some) d.exposedPrefix
-    safe := upd (e.safe.map some) d.safe
-    allowPickle := upd (e.allowPickle.map some) d.allowPickle
-    importCustomExc := upd (e.importCustomExc.map some) d.importCustomExc
-    instantiateCustomExc := upd (e.instantiateCustomExc.map some) d.instantiateCustomExc
-    instantiateOldstyleExc := upd (e.instantiateOldstyleExc.map some) d.instantiateOldstyleExc }
-
-/-- the process: the module-level `DEFAULT_CONFIG`, the settings-dict OBJECTS the application keeps (and may edit and
-reuse after having passed them to a connection), and every connection's own `_config` -/
-structure World where
-  dflt : Config
-  dicts : Nat → Overlay
-  conns : Nat → ConnSt
-
-def World.init : World := { dflt := defaultConfig, dicts := fun _ => {}, conns := fun _ => .fresh }
-
-inductive Event where
-  | open (i : Nat) (ov : Overlay)      -- `Connection(root, channel, config)` with a literal dict
-  | openWith (i : Nat) (d : Nat)       -- `Connection(root, channel, D)` with the application's dict OBJECT `D = dicts d`
-  | slave (i : Nat)                    -- connection i is the classic-mode one: its own copy gets the classic overrides
-  | close (i : Nat)                    -- `conn_i.close()`
-  | access (i : Nat)                   -- conn i serves any attribute request (decisions read, never write, the config)
-  | editDict (d : Nat) (ov : Overlay)  -- the application edits its dict object `d` (`D.update(ov)`), e.g. after opening with it
-  | setDefault (ov : Overlay)          -- the application edits the module-level defaults (`DEFAULT_CONFIG.update(ov)`)
+/-- the value stored under `"safe_attrs"`: a REFERENCE to the module's default set object (shared by everything that
+copied it shallowly), or some other set (the application's; by value, never mutated in place in the model) -/
+inductive SafeV where
+  | dfltSet
+  | lit (l : List PyStr)
   deriving DecidableEq, Repr, Inhabited
 
-/-- the connection an event belongs to; edits of application dicts and of the defaults belong to none -/
-def Event.conn : Event → Option Nat
-  | .open i _ => some i
-  | .openWith i _ => some i
-  | .slave i => some i
+/-- the eleven Boolean keys -/
+inductive BKey where
+  | safe | exposed | public_ | all | get | set | del | pickle | importExc | instExc | oldExc
+  deriving DecidableEq, Repr, Inhabited
+
+/-- a dict object over the modelled keys (`none` = key absent) -/
+structure HDict where
+  b : BKey → Option Bool
+  pfx : Option PyStr
+  safe : Option SafeV
+
+def HDict.empty : HDict := { b := fun _ => none, pfx := none, safe := none }
+
+/-- one key of `d.update(e)` -/
+def orOld {α} (new old : Option α) : Option α :=
+  match new with
+  | some v => some v
+  | none => old
+
+/-- `d.update(e)` -/
+def HDict.update (d e : HDict) : HDict :=
+  { b := fun k => orOld (e.b k) (d.b k), pfx := orOld e.pfx d.pfx, safe := orOld e.safe d.safe }
+
+/-- a dict the application writes by value -/
+def HDict.ofOverlay (ov : Overlay) : HDict :=
+  { b := fun
+      | .safe => ov.allowSafe | .exposed => ov.allowExposed | .public_ => ov.allowPublic | .all => ov.allowAll
+      | .get => ov.allowGet | .set => ov.allowSet | .del => ov.allowDel | .pickle => ov.allowPickle
+      | .importExc => ov.importCustomExc | .instExc => ov.instantiateCustomExc
+      | .oldExc => ov.instantiateOldstyleExc,
+    pfx := ov.exposedPrefix,
+    safe := ov.safe.map SafeV.lit }
+
+/-- `DEFAULT_CONFIG` as a dict object: every key present, `"safe_attrs"` refers to the default set object -/
+def defaultDict : HDict :=
+  { b := fun
+      | .safe => some defaultConfig.allowSafe | .exposed => some defaultConfig.allowExposed
+      | .public_ => some defaultConfig.allowPublic | .all => some defaultConfig.allowAll
+      | .get => some defaultConfig.allowGet | .set => some defaultConfig.allowSet | .del => some defaultConfig.allowDel
+      | .pickle => some defaultConfig.allowPickle | .importExc => some defaultConfig.importCustomExc
+      | .instExc => some defaultConfig.instantiateCustomExc | .oldExc => some defaultConfig.instantiateOldstyleExc,
+    pfx := some defaultConfig.exposedPrefix,
+    safe := some .dfltSet }
+
+/-- a connection slot: the `_config` expression is a lookup chain of dict objects (one object for a plain dict; several
+for a layered mapping); writes go to the first -/
+inductive HConn where
+  | fresh
+  | live (chain : List Ref)
+  | closed (chain : List Ref)        -- `_cleanup` keeps `_config`; no request is served any more
+  deriving DecidableEq, Repr, Inhabited
+
+structure HWorld where
+  dicts : Ref → HDict
+  /-- content of the ONE set object `DEFAULT_CONFIG["safe_attrs"]` refers to -/
+  dfltSet : List PyStr
+  conns : Nat → HConn
+
+def HWorld.init : HWorld :=
+  { dicts := fun | .dflt => defaultDict | _ => HDict.empty, dfltSet := defaultConfig.safe, conns := fun _ => .fresh }
+
+def lookB (dicts : Ref → HDict) : List Ref → BKey → Option Bool
+  | [], _ => none
+  | r :: rs, k => orOld ((dicts r).b k) (lookB dicts rs k)
+
+def lookP (dicts : Ref → HDict) : List Ref → Option PyStr
+  | [] => none
+  | r :: rs => orOld (dicts r).pfx (lookP dicts rs)
+
+def lookS (dicts : Ref → HDict) : List Ref → Option SafeV
+  | [] => none
+  | r :: rs => orOld (dicts r).safe (lookS dicts rs)
+
+def HWorld.safeContent (w : HWorld) : SafeV → List PyStr
+  | .dfltSet => w.dfltSet
+  | .lit l => l
+
+/-- the configuration a lookup chain denotes right now (`none`: some key is missing — `KeyError`) -/
+def HWorld.cfgOfChain (w : HWorld) (ch : List Ref) : Option Config := do
+  let a ← lookB w.dicts ch .safe
+  let b ← lookB w.dicts ch .exposed
+  let c ← lookB w.dicts ch .public_
+  let d ← lookB w.dicts ch .all
+  let e ← lookB w.dicts ch .get
+  let f ← lookB w.dicts ch .set
+  let g ← lookB w.dicts ch .del
+  let p ← lookP w.dicts ch
+  let s ← lookS w.dicts ch
+  let h ← lookB w.dicts ch .pickle
+  let i ← lookB w.dicts ch .importExc
+  let j ← lookB w.dicts ch .instExc
+  let k ← lookB w.dicts ch .oldExc
+  pure { allowSafe := a, allowExposed := b, allowPublic := c, allowAll := d, allowGet := e, allowSet := f,
+         allowDel := g, exposedPrefix := p, safe := w.safeContent s, allowPickle := h, importCustomExc := i,
+         instantiateCustomExc := j, instantiateOldstyleExc := k }
+
+/-- the configuration connection `i` enforces right now -/
+def HWorld.cfgOf (w : HWorld) (i : Nat) : Option Config :=
+  match w.conns i with
+  | .live ch => w.cfgOfChain ch
+  | .closed ch => w.cfgOfChain ch
+  | .fresh => none
+
+/-- how `Connection.__init__` builds `_config` (measured) -/
+inductive InitMode where
+  | copy            -- `DEFAULT_CONFIG.copy()` then `.update(config)`: a new object; the default set object stays shared
+  | aliasDefault    -- `self._config = DEFAULT_CONFIG` then `.update(config)`
+  | aliasArg        -- the caller's dict itself, completed with the defaults
+  | layered         -- a layered mapping `{}` → caller's dict → DEFAULT_CONFIG that reads through
+  deriving DecidableEq, Repr, Inhabited
+
+/-- how classic mode applies its overrides (measured) -/
+structure ClassicMode where
+  /-- the overrides are written into the dict object the caller passed -/
+  writesCallerDict : Bool
+  /-- names added IN PLACE to the set object the connection's `"safe_attrs"` refers to -/
+  addsToSafe : List PyStr
+  deriving DecidableEq, Repr, Inhabited
+
+structure Modes where
+  init : InitMode
+  classic : ClassicMode
+  deriving DecidableEq, Repr, Inhabited
+
+/-- the variant the property needs -/
+def Modes.good : Modes := { init := .copy, classic := { writesCallerDict := false, addsToSafe := [] } }
+
+/-- the variant measured on the live code -/
+def Modes.measured : Modes :=
+  { init := match Gen.Policy.initModeCode with
+      | 0 => .copy
+      | 1 => .aliasDefault
+      | 2 => .aliasArg
+      | _ => .layered,
+    classic := { writesCallerDict := Gen.Policy.classicWritesCallerDict,
+                 addsToSafe := Gen.Policy.classicAddsToSafeCp } }
+
+/-- the classic-mode overrides as a dict -/
+def slaveDict : HDict := HDict.ofOverlay slaveOverlay
+
+def HWorld.setDict (w : HWorld) (r : Ref) (d : HDict) : HWorld :=
+  { w with dicts := fun k => if k = r then d else w.dicts k }
+
+def HWorld.setConn (w : HWorld) (i : Nat) (c : HConn) : HWorld :=
+  { w with conns := fun k => if k = i then c else w.conns k }
+
+/-- `Connection.__init__(root, channel, D)` for connection `i`, `D = app d` -/
+def initConn (m : InitMode) (w : HWorld) (i d : Nat) : HWorld × List Ref :=
+  match m with
+  | .copy => (w.setDict (.own i) ((w.dicts .dflt).update (w.dicts (.app d))), [.own i])
+  | .aliasDefault => (w.setDict .dflt ((w.dicts .dflt).update (w.dicts (.app d))), [.dflt])
+  | .aliasArg => (w.setDict (.app d) ((w.dicts .dflt).update (w.dicts (.app d))), [.app d])
+  | .layered => (w.setDict (.own i) HDict.empty, [.own i, .app d, .dflt])
+
+/-- in-place growth of the set object the chain's `"safe_attrs"` refers to -/
+def addToSafe (w : HWorld) (ch : List Ref) (names : List PyStr) : HWorld :=
+  match names with
+  | [] => w
+  | _ :: _ =>
+    match lookS w.dicts ch with
+    | some .dfltSet => { w with dfltSet := w.dfltSet ++ names }
+    | _ => w
+
+/-- first dict object of a chain (where `_config.update(..)` writes) -/
+def headRef : List Ref → Ref
+  | r :: _ => r
+  | [] => .dflt
+
+/-- `Service._connect(channel, D)` for connection `i` with the application's dict object `app d`; `classic`: the local
+service is `SlaveService` (or `ClassicService`) -/
+def openConn (m : Modes) (w : HWorld) (i d : Nat) (classic : Bool) : HWorld :=
+  let w0 := if classic && m.classic.writesCallerDict then
+      w.setDict (.app d) ((w.dicts (.app d)).update slaveDict) else w
+  let (w1, ch) := initConn m.init w0 i d
+  let w2 := if classic && !m.classic.writesCallerDict then
+      w1.setDict (headRef ch) ((w1.dicts (headRef ch)).update slaveDict) else w1
+  let w3 := if classic then addToSafe w2 ch m.classic.addsToSafe else w2
+  w3.setConn i (.live ch)
+
+inductive HEvent where
+  | open (i d : Nat) (classic : Bool)    -- establish connection i with dict object `app d`
+  | close (i : Nat)
+  | access (i : Nat)                     -- connection i serves attribute requests (TRUSTED: a request writes no config object)
+  | editDict (r : Ref) (ov : Overlay)    -- the application runs `R.update(ov)` on one of ITS dict objects (or on DEFAULT_CONFIG)
+  | mutDfltSet (names : List PyStr)      -- somebody grows the default `safe_attrs` set object IN PLACE
+  deriving DecidableEq, Repr, Inhabited
+
+def HEvent.conn : HEvent → Option Nat
+  | .open i _ _ => some i
   | .close i => some i
   | .access i => some i
   | .editDict _ _ => none
-  | .setDefault _ => none
+  | .mutDfltSet _ => none
 
-/-- environment events: they decide what connections opened LATER start from -/
-def Event.isEnv : Event → Bool
-  | .editDict _ _ => true
-  | .setDefault _ => true
-  | _ => false
+/-- events the application is entitled to and rpyc itself never performs on another party's behalf: it edits dict
+objects it owns (or the module defaults), never a connection's private `_config`, and nobody grows the shared set -/
+def HEvent.fair : HEvent → Bool
+  | .editDict (.own _) _ => false
+  | .mutDfltSet _ => false
+  | _ => true
 
-def World.setConn (w : World) (i : Nat) (s : ConnSt) : World :=
-  { w with conns := fun k => if k = i then s else w.conns k }
-
-/-- one event.  Opening takes a SNAPSHOT: `DEFAULT_CONFIG.copy()` updated with the dict's content at that moment.
-Events that make no sense for the slot's state (opening an identity twice, on_connect or close of a connection that
-is not live) leave the world unchanged. -/
-def step (w : World) : Event → World
-  | .open i ov =>
+def hstep (m : Modes) (w : HWorld) : HEvent → HWorld
+  | .open i d classic =>
     match w.conns i with
-    | .fresh => w.setConn i (.live (applyOverlay w.dflt ov))
-    | _ => w
-  | .openWith i d =>
-    match w.conns i with
-    | .fresh => w.setConn i (.live (applyOverlay w.dflt (w.dicts d)))
-    | _ => w
-  | .slave i =>
-    match w.conns i with
-    | .live cfg => w.setConn i (.live (onConnectSlave cfg))
+    | .fresh => openConn m w i d classic
     | _ => w
   | .close i =>
     match w.conns i with
-    | .live cfg => w.setConn i (.closed cfg)
+    | .live ch => w.setConn i (.closed ch)
     | _ => w
   | .access _ => w
-  | .editDict d ov => { w with dicts := fun k => if k = d then mergeOverlay (w.dicts d) ov else w.dicts k }
-  | .setDefault ov => { w with dflt := applyOverlay w.dflt ov }
+  | .editDict r ov => w.setDict r ((w.dicts r).update (HDict.ofOverlay ov))
+  | .mutDfltSet names => { w with dfltSet := w.dfltSet ++ names }
 
-def runEvents (w : World) : List Event → World
+def hrun (m : Modes) (w : HWorld) : List HEvent → HWorld
   | [] => w
-  | e :: es => runEvents (step w e) es
+  | e :: es => hrun m (hstep m w e) es
 
 /-- what connection `i` answers to an attribute request in world `w` (`none`: not a live connection) -/
-def World.decide (w : World) (i : Nat) (o : Obj) (nm : Name) (r : Req) : Option Res :=
+def HWorld.decide (w : HWorld) (i : Nat) (o : Obj) (nm : Name) (r : Req) : Option Res :=
   match w.conns i with
-  | .live cfg => some (handle cfg o nm r)
+  | .live ch => (w.cfgOfChain ch).map (fun cfg => handle cfg o nm r)
   | _ => none
 
 end Rpyc.Policy
